@@ -527,14 +527,18 @@ fn gzip_levels() -> Vec<String> {
     v.extend([4294967296i64, 4294967296 + 9, -4294967296 + 3].iter().map(|l| l.to_string()));
     v
 }
+/// zstd levels that are cheap to run (tables of the high levels take seconds to set up)
 fn zstd_levels() -> Vec<String> {
     let mut v: Vec<String> = vec!["-".into()];
-    v.extend((-7..=22).map(|l: i64| l.to_string()));
-    v.extend(
-        [23i64, 100, -100, -131072, -131073, 2147483647, -2147483648, 4294967296 + 3, 2147483648, -2147483649]
-            .iter()
-            .map(|l| l.to_string()),
-    );
+    v.extend((-7..=12).map(|l: i64| l.to_string()));
+    // below the minimum level, `as i32` wrap-around: 2^32+3 is 3, 2^31 is i32::MIN
+    v.extend([-100i64, -131072, -131073, -2147483648, 4294967296 + 3, 2147483648].iter().map(|l| l.to_string()));
+    v
+}
+/// expensive zstd levels: 13..=22, above the maximum (clamped), i32::MAX, and -2^31-1 which wraps to i32::MAX
+fn zstd_slow_levels() -> Vec<String> {
+    let mut v: Vec<String> = (13..=22).map(|l: i64| l.to_string()).collect();
+    v.extend([23i64, 100, 2147483647, -2147483649].iter().map(|l| l.to_string()));
     v
 }
 
@@ -595,11 +599,6 @@ fn emit_oracle(sink: &mut Sink, codec: &str, opts: &str, b: &[u8]) {
     }
 }
 
-/// slow option values are sampled on short inputs only
-fn slow(codec: &str, opts: &str) -> bool {
-    codec == "zstd" && opts.parse::<i64>().is_ok_and(|l| (16..=100).contains(&(l % 4294967296)))
-}
-
 pub fn generate(sink: &mut Sink, rng: &mut Rng, n: u64) {
     // ---- fixed edge cases ----------------------------------------------------------------
     // every single byte value, and every length 0..=70 of a counting pattern, through the modelled codecs
@@ -634,12 +633,35 @@ pub fn generate(sink: &mut Sink, rng: &mut Rng, n: u64) {
         let kind = KINDS[i % KINDS.len()];
         let b = gen_bytes(rng, *len, kind);
         for (codec, opts) in all_byte_combos(*len) {
-            if slow(&codec, &opts) && *len > 64 {
-                continue;
-            }
             emit_oracle(sink, &codec, &opts, &b);
         }
         sink.count("c22:edge:all_options_x_boundary_len");
+    }
+    // expensive zstd levels: a few in the quick tier, all of them on three inputs in the thorough tier
+    let thorough = n >= 20000;
+    for l in zstd_slow_levels() {
+        if thorough {
+            for len in [0usize, 64, 4096] {
+                let b = gen_bytes(rng, len, Kind::Pattern);
+                emit_oracle(sink, "zstd", &l, &b);
+            }
+        } else if l == "16" || l == "19" || l == "22" {
+            emit_oracle(sink, "zstd", &l, b"zstd level sample zstd level sample");
+        }
+    }
+    // base64 charset names that `Base64Charset::from_slice` rejects
+    for cs in ["", "Standard", "url-safe", "standard ", "urlsafe", "base64"] {
+        sink.emit("c22.b64enc", &[hx(cs.as_bytes()), "1".into(), "00".into()]);
+        sink.emit("c22.b64dec", &[hx(cs.as_bytes()), "4141".into()]);
+    }
+    // values made of padding only
+    for k in 0..=9usize {
+        for cs in B64_CHARSETS {
+            sink.emit("c22.b64dec", &[hx(cs.as_bytes()), hx(&vec![b'='; k])]);
+            let mut v = b"QQ".to_vec();
+            v.extend(vec![b'='; k]);
+            sink.emit("c22.b64dec", &[hx(cs.as_bytes()), hx(&v)]);
+        }
     }
     // every charset label on a text it can represent and on mixed text
     for label in CHARSET_LABELS {
@@ -694,9 +716,6 @@ pub fn generate(sink: &mut Sink, rng: &mut Rng, n: u64) {
             let (codec, mut opts) = combos_proto[idx].clone();
             if codec == "lz4" && opts == "false/0" {
                 opts = format!("false/{}", len + rng.below(3) as usize);
-            }
-            if slow(&codec, &opts) && len > 64 {
-                continue;
             }
             emit_oracle(sink, &codec, &opts, &b);
         }
